@@ -162,7 +162,7 @@ func (ex *Exec) loopSpecFor(fr *Frame, b *ssa.BasicBlock) *LoopSpec {
 	if c == nil {
 		return nil
 	}
-	return c.Loops[l.Ordinal]
+	return ex.matchLoop(fr.fn, c, l)
 }
 
 // subst applies type-parameter bindings.
@@ -189,14 +189,34 @@ func (ex *Exec) isHeapStruct(t types.Type) bool {
 
 // zeroObject zero-initialises every field of a fresh heap object.
 func (ex *Exec) zeroObject(s *State, obj Term, t types.Type) {
-	l := ex.layouts.Of(t)
 	st := t.Underlying().(*types.Struct)
-	for i := 0; i < st.NumFields(); i++ {
-		f := st.Field(i)
-		p := ex.fieldAddrOf(s, RefV{T: obj, Typ: t}, t, i)
-		_ = l
-		ex.storeVal(s, p.(PtrV), ex.zero(ex.subst(f.Type())), f.Type())
+	// slot and byte rows of a fresh object are constant-zero arrays (one store per heap array)
+	sp := s.H(ex, "SP", ex.spSort())
+	stt := s.H(ex, "ST", ex.stSort())
+	b := s.H(ex, "B", ex.bSort())
+	zb := ex.intConst(big.NewInt(0), 8, false).T
+	s.setH("SP", Store(sp, obj, Term{"nullrow", ArrSort(SInt, SRef)}))
+	s.setH("ST", Store(stt, obj, Term{fmt.Sprintf("((as const %s) %s)", ArrSort(SInt, ex.byteSort()), zb.S), ArrSort(SInt, ex.byteSort())}))
+	s.setH("B", Store(b, obj, Term{fmt.Sprintf("((as const %s) %s)", ArrSort(SInt, ex.byteSort()), zb.S), ArrSort(SInt, ex.byteSort())}))
+	var zeroScalars func(typ types.Type, prefix string)
+	zeroScalars = func(typ types.Type, prefix string) {
+		stt := typ.Underlying().(*types.Struct)
+		for i := 0; i < stt.NumFields(); i++ {
+			f := stt.Field(i)
+			ft := ex.subst(f.Type())
+			p := ex.heapFieldAddr(s, obj, typ, prefix, f, ft).(PtrV)
+			switch p.Kind {
+			case PSlot, PSlotArr, PByteArr:
+				// covered by the constant rows
+			case PStruct:
+				zeroScalars(ft, p.Field)
+			default:
+				ex.storeVal(s, p, ex.zero(ft), f.Type())
+			}
+		}
 	}
+	_ = st
+	zeroScalars(t, "")
 }
 
 // ---------------------------------------------------------------------------
@@ -743,7 +763,7 @@ func (ex *Exec) castObligation(s *State, fr *Frame, p Term, elem types.Type, at 
 		l := ex.layouts.Of(elem)
 		ok = Eq(Select(at0, p), IntC(int64(ex.layoutClass(l, elem))))
 	}
-	ex.emit(s, "cast", fmt.Sprintf("cast/%s/%s@%s", normName(fr.fn.RelString(ex.prog.SSA.Pkg)), name, ex.prog.Pos(at.Pos())), Or(Eq(p, Null), ok), at.Pos(), "unsafe.Pointer converted to *"+name+" only when the object was allocated with an identical layout")
+	ex.emit(s, "cast", fmt.Sprintf("cast/%s/%s@%s", normName(fr.fn.RelString(ex.prog.SSA.Pkg)), name, ex.prog.SrcAnchor(at.Pos())), Or(Eq(p, Null), ok), at.Pos(), "unsafe.Pointer converted to *"+name+" only when the object was allocated with an identical layout")
 }
 
 func (ex *Exec) layoutByName(n string) *StructLayout {
